@@ -20,8 +20,6 @@ CLAUSES = {
     "extglob_negation_not_complement": "!(...) is encoded as (?:(?!alts).*|(?>alts).+?|) which is not the complement of the alternatives",
     "nocasematch_folds_named_class": "with nocasematch a named class such as [[:upper:]] is case-folded by the regex engine; bash does not fold classes",
     "named_class_ascii_only": "named classes such as [[:alpha:]] are ASCII-only in the regex crate; bash in a UTF-8 locale classifies multi-byte characters too",
-    "quoted_pattern_operator_not_escaped": "a quoted ! ^ - @ or : is joined into the pattern text without a backslash (regex_char_is_special does not list them) and keeps its pattern meaning: [\"!\"a] negates, [a\"-\"c] is a range, \"@\"$group is an extglob, [[\":\"alpha:]] a class",
-    "glob_piecewise_literal_shortcut": "Pattern::expand asks requires_expansion of each piece separately; a construct cut by a quoting boundary ([a\"b\"], [\\!a]) has no piece that is a complete glob, so the word is not expanded at all",
     "regex_engine_repeated_plus_group": "the regex engine answers (X)+ Y (X)+ (from +(X)…+(X): same X twice, Y able to match the empty string, e.g. * or ?(a)) as if one occurrence of X sufficed",
 }
 
@@ -405,7 +403,7 @@ def stage_Q(ctx):
     bo, oo = run("brush"), run("bash")
 
     def esc_lit(c):
-        return "".join(("\\" + ch) if ch in "\\^$.|?*+()[]{}" else ch for ch in c)
+        return "".join(("\\" + ch) if ch in "\\^$.|?*+()[]{}!-@:" else ch for ch in c)      # pattern_text (patterns.rs)
     reqs = []
     for src, segs, subs in cases:
         ptxt = "".join(x if k == "p" else esc_lit(x) for k, x in segs)
@@ -789,7 +787,7 @@ def judge_piece(ctx, st, case, c, nc, b, o, m, sp):
         truth = None
     else:
         truth = o
-    feature = c.qops() or c.has_bang() or (nc and c.has_class())
+    feature = c.has_bang() or (nc and c.has_class())
     if b != m:
         if truth is not None and b == truth and feature:
             st["fixed"] += 1
@@ -809,9 +807,8 @@ def judge_piece(ctx, st, case, c, nc, b, o, m, sp):
         return
     if truth is None or b == truth:
         return
-    if c.qops():
-        cl = "quoted_pattern_operator_not_escaped"
-    elif c.has_bang():
+    # (repaired, no excuse any more: a quoted ! - @ : keeping its pattern meaning)
+    if c.has_bang():
         cl = "extglob_negation_not_complement"
     elif nc and c.has_class():
         cl = "nocasematch_folds_named_class"
@@ -847,7 +844,10 @@ def judge_piece_glob(ctx, st, case, c, b, o, m):
     # a word that is kept as it is still names a file when it equals one
     word = "".join(t for _, t, _ in c.pieces)
     lit = word if word in P_NAMES else "NOMATCH"
-    impl_c = lit if impl == "NOEXP" else impl
+    # a pattern that matches nothing leaves the word as it is, too (nullglob is off)
+    impl_c = lit if impl in ("NOEXP", "NOMATCH") else impl
+    if spec == "NOMATCH":
+        spec = lit
     if spec == "?":
         truth = None
     elif spec != oo:
@@ -856,7 +856,7 @@ def judge_piece_glob(ctx, st, case, c, b, o, m):
     else:
         truth = oo
     if bb != impl_c:
-        if truth is not None and bb == truth and (c.qops() or c.has_bang() or impl == "NOEXP"):
+        if truth is not None and bb == truth and c.has_bang():
             st["fixed"] += 1
             return
         if st["nv"] < 12:
@@ -866,11 +866,8 @@ def judge_piece_glob(ctx, st, case, c, b, o, m):
         return
     if truth is None or bb == truth:
         return
-    if impl == "NOEXP":
-        cl = "glob_piecewise_literal_shortcut"
-    elif c.qops():
-        cl = "quoted_pattern_operator_not_escaped"
-    elif c.has_bang():
+    # (repaired, no excuse any more: the per-piece requires_expansion test of Pattern::expand; quoted operators)
+    if c.has_bang():
         cl = "extglob_negation_not_complement"
     else:
         cl = None
